@@ -414,3 +414,219 @@ if hasattr(_host.DataPacketQueue, 'reset'):
         modifies=['q._in_flight', 'q._packets', 'q._connection_state', 'q._completed'],
         note='only on a tree that has DataPacketQueue.reset (notes/C16/fix-2.diff)',
     )
+
+
+# ---------------------------------------------------------------------------
+# virtual controller: the link-layer end of a disconnection
+# ---------------------------------------------------------------------------
+def ctl_send(ghost, packet):
+    """Controller.send_hci_packet: records every Disconnection Complete event handed to the host"""
+    assert isinstance(packet, hci.HCI_Disconnection_Complete_Event)
+    ghost.dc_events = ghost.dc_events + [(packet.status, packet.connection_handle, packet.reason)]
+
+
+ADDR = Opaque('addr')  # hci.Address: hashed and compared by value; only equality matters here
+model('bumble.controller:Connection#c16', fields=dict(handle=(HANDLE, 0), peer_address=(ADDR, None)))
+model('bumble.controller:ScoLink#c16', fields=dict(handle=(HANDLE, 0), peer_address=(ADDR, None)))
+model(
+    'bumble.controller:Controller#c16',
+    fields=dict(
+        le_connections=MapOf('bumble.controller:Connection#c16'),
+        classic_connections=MapOf('bumble.controller:Connection#c16'),
+        sco_links=MapOf('bumble.controller:ScoLink#c16'),
+    ),
+    methods={'send_hci_packet': Callback('send_hci_packet', effect=ctl_send)},
+)
+model('bumble.controller:Connection#c16p', fields=dict(handle=HANDLE, peer_address=ADDR))
+CTRL = Inst('bumble.controller:Controller#c16')
+CTRL_GHOST = dict(dc_events=ListOf(TupleOf(Int, Int, Int)), a=ADDR)
+REASON = IntRange(0, 255)
+
+contract(
+    'bumble.controller:Controller.on_classic_disconnected',
+    prop='C16',
+    params=dict(self=CTRL, peer_address=ADDR, reason=REASON),
+    ghost=CTRL_GHOST,
+    ensures=lambda self, peer_address, reason, old, ghost: [
+        not mhas(self.classic_connections, peer_address),
+        implies(ghost.a != peer_address, iff(mhas(self.classic_connections, ghost.a), mhas(old.self.classic_connections, ghost.a))),
+        # the host is told exactly once, with the handle of the connection that was removed
+        implies(mhas(old.self.classic_connections, peer_address),
+                ghost.dc_events == old.ghost.dc_events + [(0, mget(old.self.classic_connections, peer_address, 'handle'), reason)]),
+        implies(not mhas(old.self.classic_connections, peer_address), ghost.dc_events == old.ghost.dc_events),
+    ],
+    ensures_names=['gone-from-classic-connections', 'other-connections-kept', 'host-told-once-with-its-handle', 'unknown-peer-ignored'],
+    modifies=['self.classic_connections', 'ghost.dc_events'],
+)
+
+contract(
+    'bumble.controller:Controller.on_classic_sco_disconnected',
+    prop='C16',
+    params=dict(self=CTRL, peer_address=ADDR, reason=REASON),
+    ghost=CTRL_GHOST,
+    ensures=lambda self, peer_address, reason, old, ghost: [
+        not mhas(self.sco_links, peer_address),
+        implies(ghost.a != peer_address, iff(mhas(self.sco_links, ghost.a), mhas(old.self.sco_links, ghost.a))),
+        implies(mhas(old.self.sco_links, peer_address), ghost.dc_events == old.ghost.dc_events + [(0, mget(old.self.sco_links, peer_address, 'handle'), reason)]),
+        implies(not mhas(old.self.sco_links, peer_address), ghost.dc_events == old.ghost.dc_events),
+    ],
+    ensures_names=['gone-from-sco-links', 'other-links-kept', 'host-told-once-with-its-handle', 'unknown-peer-ignored'],
+    modifies=['self.sco_links', 'ghost.dc_events'],
+)
+
+contract(
+    'bumble.controller:Controller.on_le_disconnected',
+    prop='C16',
+    params=dict(self=CTRL, connection=Inst('bumble.controller:Connection#c16p'), reason=REASON),
+    ghost=CTRL_GHOST,
+    # callers (on_ll_control_pdu, on_hci_disconnect_command) pass a connection they just found in le_connections,
+    # which is keyed by the peer address of the connection it holds
+    requires=lambda self, connection: [mhas(self.le_connections, connection.peer_address)],
+    ensures=lambda self, connection, reason, old, ghost: [
+        not mhas(self.le_connections, connection.peer_address),
+        implies(ghost.a != connection.peer_address, iff(mhas(self.le_connections, ghost.a), mhas(old.self.le_connections, ghost.a))),
+        ghost.dc_events == old.ghost.dc_events + [(0, connection.handle, reason)],
+    ],
+    ensures_names=['gone-from-le-connections', 'other-connections-kept', 'host-told-once-with-its-handle'],
+    modifies=['self.le_connections', 'ghost.dc_events'],
+)
+
+
+# ---------------------------------------------------------------------------
+# GATT server: per-bearer state (a bearer is the ACL connection or an EATT channel; dict keys by object identity)
+# ---------------------------------------------------------------------------
+BEARER = Opaque('bearer')
+model('builtins:dict#c16row', fields={})  # a row of Server.subscribers: {attribute handle: cccd bytes} (content irrelevant here)
+model('asyncio.locks:Semaphore#c16', fields={})
+# pending_confirmations: defaultdict(lambda: None) of futures; st is the state of the stored future, -1 for None
+model('contracts.c16_env:Fut#slot', fields=dict(st=(IntRange(-1, 3), -1)))
+model(
+    'bumble.gatt_server:Server#c16',
+    fields=dict(
+        subscribers=MapOf('builtins:dict#c16row'),
+        indication_semaphores=MapOf('asyncio.locks:Semaphore#c16', default_factory=True),
+        pending_confirmations=MapOf('contracts.c16_env:Fut#slot', default_factory=True),
+    ),
+)
+SERVER = Inst('bumble.gatt_server:Server#c16')
+
+
+def server_state(srv, b):
+    """does the server hold anything for bearer b"""
+    return mhas(srv.subscribers, b) or mhas(srv.indication_semaphores, b) or mhas(srv.pending_confirmations, b)
+
+
+def server_rows_kept(new, old, b):
+    return (iff(mhas(new.subscribers, b), mhas(old.subscribers, b)) and iff(mhas(new.indication_semaphores, b), mhas(old.indication_semaphores, b))
+            and iff(mhas(new.pending_confirmations, b), mhas(old.pending_confirmations, b)))
+
+
+contract(
+    'bumble.gatt_server:Server.on_disconnection',
+    prop='C16',
+    params=dict(self=SERVER, bearer=BEARER),
+    ghost=dict(b=BEARER),
+    ensures=lambda self, bearer, old, ghost: [
+        not server_state(self, bearer),
+        implies(ghost.b != bearer, server_rows_kept(self, old.self, ghost.b)),
+    ],
+    ensures_names=['no-subscription-semaphore-or-pending-confirmation-of-the-bearer', 'other-bearers-kept'],
+    modifies=['self.subscribers', 'self.indication_semaphores', 'self.pending_confirmations'],
+    note='the waiter of a pending confirmation is bounded by wait_for(GATT_REQUEST_TIMEOUT) in _indicate_single_bearer (c16_waiters.py)',
+)
+
+
+# ---------------------------------------------------------------------------
+# L2CAP: ChannelManager.on_disconnection -- C16 view (the channel tables in full: C09, contracts/c09_*.py)
+# ---------------------------------------------------------------------------
+def rec_abort_classic(ghost, chan):
+    """recording stub for the abort() of a channel registered in ChannelManager.channels[handle] (the real aborts have
+    their own contracts below); ghost.c is a fixed but arbitrary CID"""
+    ghost.ab_src = ghost.ab_src + (1 if chan.source_cid == ghost.c else 0)
+
+
+def rec_abort_coc(ghost, chan):
+    ghost.ab_dst = ghost.ab_dst + (1 if chan.destination_cid == ghost.c else 0)
+
+
+CID = IntRange(0, 0xFFFF)
+model('bumble.l2cap:ClassicChannel#c16rec', fields=dict(source_cid=(CID, 0)), methods={'abort': Callback('abort', effect=rec_abort_classic, with_self=True)})
+model('bumble.l2cap:LeCreditBasedChannel#c16rec', fields=dict(destination_cid=(CID, 0)), methods={'abort': Callback('abort', effect=rec_abort_coc, with_self=True)})
+# a value of pending_credit_based_connections[handle] is a (future, channels) pair: the record is the future
+model('contracts.c16_env:Fut#pending', fields=dict(st=(IntRange(0, 3), 0), guard=(IntRange(0, 2), 0)))
+ext_c16.TUPLE_VALUES['contracts.c16_env:Fut#pending'] = ('rec', 'channels')
+model('contracts.c16_env:KeyView#channels', fields=dict(key=HANDLE, present=Bool, value=MapOf('bumble.l2cap:ClassicChannel#c16rec')))
+model('contracts.c16_env:KeyView#coc', fields=dict(key=HANDLE, present=Bool, value=MapOf('bumble.l2cap:LeCreditBasedChannel#c16rec')))
+model('contracts.c16_env:KeyView#pending', fields=dict(key=HANDLE, present=Bool, value=MapOf('contracts.c16_env:Fut#pending')))
+model('contracts.c16_env:KeyView#ids', fields=dict(key=HANDLE, present=Bool, value=IntRange(0, 255)))
+model(
+    'bumble.l2cap:ChannelManager#c16',
+    fields=dict(
+        channels=Inst('contracts.c16_env:KeyView#channels'),
+        le_coc_channels=Inst('contracts.c16_env:KeyView#coc'),
+        pending_credit_based_connections=Inst('contracts.c16_env:KeyView#pending'),
+        identifiers=Inst('contracts.c16_env:KeyView#ids'),
+    ),
+)
+MANAGER = Inst('bumble.l2cap:ChannelManager#c16')
+L2_GHOST = dict(c=CID, i=IntRange(0, 255), ab_src=Int, ab_dst=Int)
+
+
+def tables_of(self):
+    return [self.channels, self.le_coc_channels, self.pending_credit_based_connections, self.identifiers]
+
+
+def l2_pre(self, connection_handle):
+    return [
+        self.channels.key == connection_handle and self.le_coc_channels.key == connection_handle,
+        self.pending_credit_based_connections.key == connection_handle and self.identifiers.key == connection_handle,
+        # table invariant (C09): a channel is registered under its own source CID / its peer's CID
+        forall_keys(self.channels.value, lambda k: mget(self.channels.value, k, 'source_cid') == k),
+        forall_keys(self.le_coc_channels.value, lambda k: mget(self.le_coc_channels.value, k, 'destination_cid') == k),
+    ]
+
+
+def l2_emptied(self):
+    return not self.channels.present and not self.le_coc_channels.present and not self.pending_credit_based_connections.present and not self.identifiers.present
+
+
+def pending_same_keys(self, old):
+    inner, inner0 = self.pending_credit_based_connections.value, old.self.pending_credit_based_connections.value
+    return [forall_keys(inner, lambda k: mhas(inner0, k)), forall_keys(inner0, lambda k: mhas(inner, k))]
+
+
+def pending_released(self, old, i, visited):
+    """the future of the pending enhanced credit-based connection request with identifier i: once visited it is
+    finished (cancelled if it was pending, else as it was); before, untouched"""
+    inner, inner0 = self.pending_credit_based_connections.value, old.self.pending_credit_based_connections.value
+    st, st0 = mget(inner, i, 'st'), mget(inner0, i, 'st')
+    return implies(mhas(inner0, i), (st == (CANCELLED if st0 == PENDING else st0)) if visited else st == st0)
+
+
+contract(
+    'bumble.l2cap:ChannelManager.on_disconnection',
+    prop='C16',
+    params=dict(self=MANAGER, connection_handle=HANDLE, reason=REASON),
+    ghost=L2_GHOST,
+    requires=l2_pre,
+    ensures=lambda self, connection_handle, old, ghost: [
+        # nothing is registered for the handle any more: channels, LE CoC channels, pending requests, identifier counter
+        l2_emptied(self),
+        # every channel of the connection was aborted -- including LE credit-based channels that are still CONNECTING and
+        # therefore only in `channels` (ghost.c is an arbitrary CID) ...
+        ghost.ab_src == old.ghost.ab_src + (1 if old.self.channels.present and mhas(old.self.channels.value, ghost.c) else 0),
+        ghost.ab_dst == old.ghost.ab_dst + (1 if old.self.le_coc_channels.present and mhas(old.self.le_coc_channels.value, ghost.c) else 0),
+        # ... and whoever waits for the answer to an enhanced credit-based connection request is released
+        pending_released(self, old, ghost.i, old.self.pending_credit_based_connections.present),
+    ],
+    ensures_names=['tables-emptied-for-the-handle', 'every-channel-aborted-once', 'every-le-coc-channel-aborted-once', 'every-pending-request-future-released'],
+    invariants={
+        0: lambda self, old, ghost, _seen: [ghost.ab_src == old.ghost.ab_src + (1 if mhas(_seen, ghost.c) else 0), ghost.ab_dst == old.ghost.ab_dst],
+        1: lambda self, old, ghost, _seen: [ghost.ab_dst == old.ghost.ab_dst + (1 if mhas(_seen, ghost.c) else 0)],
+        2: lambda self, old, ghost, _seen: pending_same_keys(self, old) + [pending_released(self, old, ghost.i, mhas(_seen, ghost.i))],
+    },
+    loop_modifies={0: ['ghost.ab_src'], 1: ['ghost.ab_dst'], 2: ['self.pending_credit_based_connections.value']},
+    modifies=['self.channels.present', 'self.le_coc_channels.present', 'self.pending_credit_based_connections.present', 'self.identifiers.present',
+              'self.pending_credit_based_connections.value', 'ghost.ab_src', 'ghost.ab_dst'],
+    inline=['KeyView.*'] + FUT_INLINE,
+)
